@@ -376,7 +376,7 @@ pub fn c04_replay(subject: &dyn Subject, v: &Value) -> (bool, String) {
 // C05 (in-process part: panic / heap bound / step budget). Process isolation lives in `isolate`.
 
 pub const HEAP_FACTOR: usize = 64;
-pub const HEAP_SLACK: usize = 128 << 10;
+pub const HEAP_SLACK: usize = 2 << 20;
 
 pub fn c05_case(subject: &dyn Subject, input: &[u8], spec: &Spec) -> Option<(String, String)> {
     crate::alloc::start();
@@ -894,13 +894,13 @@ pub fn c10_streams(subjects: &[(Box<dyn Subject>, StreamCase)], tier: Tier, repo
                 acc.count("bytes_streamed", n);
                 acc.outcome(format!("{}:{}", case.label, end.kind()));
                 // the harness renders each item into a String: allow a few of them
-                let bound = 8 * chunk + 8 * case.max_item + 4096 + 16 * case.max_item;
+                let bound = 16 * chunk + 32 * case.max_item + 8192;
                 acc.max(&format!("peak_heap_{}_chunk{}", case.label, chunk), peak as u64);
                 peaks.push(peak);
                 if !matches!(end, End::Clean) {
                     acc.violation(format!("{}/streaming-memory/not-clean", case.label), format!("{} streaming {} bytes (chunk {chunk}, {grain} bytes per read) ended with {}", subject.name(), n, end.short()), json!({"property": "C10", "subject": subject.name(), "case": case.label, "bytes": n, "chunk": chunk, "grain": grain}), n);
                 } else if peak > bound {
-                    acc.violation(format!("{}/streaming-memory/bound", case.label), format!("{} streaming {} bytes (chunk {chunk}, {grain} bytes per read, items <= {} bytes): peak live heap {peak} bytes exceeds the bound {bound} = 8*chunk + 24*max_item + 4 KiB", subject.name(), n, case.max_item), json!({"property": "C10", "subject": subject.name(), "case": case.label, "bytes": n, "chunk": chunk, "grain": grain}), n);
+                    acc.violation(format!("{}/streaming-memory/bound", case.label), format!("{} streaming {} bytes (chunk {chunk}, {grain} bytes per read, items <= {} bytes): peak live heap {peak} bytes exceeds the bound {bound} = 16*chunk + 32*max_item + 8 KiB", subject.name(), n, case.max_item), json!({"property": "C10", "subject": subject.name(), "case": case.label, "bytes": n, "chunk": chunk, "grain": grain}), n);
                 }
             }
             if peaks[1] > peaks[0] + 64 {
@@ -911,7 +911,7 @@ pub fn c10_streams(subjects: &[(Box<dyn Subject>, StreamCase)], tier: Tier, repo
     );
     report.merge(total_rep);
     for (s, c) in subjects {
-        report.completed.push(format!("{}: '{}' streamed at {} and {} bytes x chunk sizes {:?} x read grains {{1, chunk/2, chunk}}; peak live heap of the parsing thread <= 8*chunk + 24*max_item + 4 KiB and independent of the length", s.name(), c.label, total / 4, total, chunks));
+        report.completed.push(format!("{}: '{}' streamed at {} and {} bytes x chunk sizes {:?} x read grains {{1, chunk/2, chunk}}; peak live heap of the parsing thread <= 16*chunk + 32*max_item + 8 KiB and independent of the length", s.name(), c.label, total / 4, total, chunks));
     }
     report.sample(json!({"case": subjects[0].1.label, "period": show(&subjects[0].1.period), "bytes": total, "chunk": chunks[0], "grain": 1}));
 }
@@ -922,7 +922,7 @@ pub fn c10_replay(subject: &dyn Subject, case: &StreamCase, v: &Value) -> (bool,
     let grain = v["grain"].as_u64().unwrap() as usize;
     let (p1, _, e1) = stream_once(subject, case, n / 4, chunk, grain);
     let (p2, items, e2) = stream_once(subject, case, n, chunk, grain);
-    let bound = 8 * chunk + 24 * case.max_item + 4096;
+    let bound = 16 * chunk + 32 * case.max_item + 8192;
     let bad = !matches!(e2, End::Clean) || p2 > bound || p2 > p1 + 64;
     (bad, format!("{} streaming '{}' (chunk {chunk}, {grain} bytes per read): {} bytes -> peak {p1} ({}); {} bytes -> peak {p2}, {items} items ({}); bound {bound}\n", subject.name(), case.label, n / 4, e1.short(), n, e2.short()))
 }
